@@ -247,7 +247,7 @@ macro_rules! dgram_rt {
 // @h props=C03,C16,C17 tier=quick t=1800 mem=20 sub=datagram-roundtrip
 // @fn wtransport/src/datagram.rs Datagram::{write,read,payload,deref,session_id,header_size,into_quic_bytes}; wtransport-proto/src/datagram.rs Datagram::{new,write,read,write_size,header_size}
 // @bound every session id whose quarter id is a 1-byte varint; payload of exactly 3 symbolic bytes; real bytes::Bytes
-// @oracle read(write(sid,p)): same session id, payload byte-identical through Deref (payload() in the thorough instance c03_datagram_roundtrip_payload_fn); wire == varint(sid/4)||p (reference encoder); wire length == header_size(sid) + |p|; no framing byte visible
+// @oracle read(write(sid,p)): same session id, payload byte-identical through Deref; wire == varint(sid/4)||p (reference encoder); wire length == header_size(sid) + |p|; no framing byte visible
 // @outside payload lengths other than the instance's (instances: 0, 3 quick; 1, 8 thorough); loss/reordering/duplication (quinn)
 dgram_rt!(c03_datagram_roundtrip_id1_p3, 0, 3, false);
 
@@ -275,11 +275,9 @@ dgram_rt!(c03_datagram_roundtrip_id4_p8, 2, 8, false);
 // @oracle as c03_datagram_roundtrip_id1_p3
 dgram_rt!(c03_datagram_roundtrip_id8_p1, 3, 1, false);
 
-// @h props=C03 tier=thorough t=3600 mem=24 sub=datagram-roundtrip-payload-fn
-// @fn wtransport/src/datagram.rs Datagram::{write,read,payload}
-// @bound every session id whose quarter id is a 1-byte varint; payload of exactly 2 symbolic bytes; additionally reads the payload through `Datagram::payload()` (Bytes::slice)
-// @oracle as c03_datagram_roundtrip_id1_p3, and payload() == the sent bytes
-dgram_rt!(c03_datagram_roundtrip_payload_fn, 0, 2, true);
+// (an instance reading the payload through `Datagram::payload()` - Bytes::slice promoting a Vec-backed buffer to the
+// shared representation - ran out of memory at 25 GB; `payload()` is decided over statically backed Bytes in
+// mdrv::a_driver_receive_datagram instead)
 
 // @h props=C03,C17,C11 tier=quick t=1800 mem=20 sub=datagram-receive covers=any
 // @fn wtransport/src/datagram.rs Datagram::{read,payload,deref,session_id}
@@ -381,6 +379,7 @@ fn receive_check<const LEN: usize>(b: &[u8; 10]) {
             }
             kani::cover!(n == 8, "8-byte quarter id");
             kani::cover!(len == n, "empty payload");
+            kani::cover!(len > n, "non-empty payload");
             core::mem::forget(d);
         }
         (Err(e), Some((q, _))) => {
